@@ -248,7 +248,7 @@ def c16(cx):
         pgserver_inductive(cx)
     # schedules: every interleaving of the permissive (lock-free) scheduler model, replayed on real goroutines
     b = model_check(cx, "MC_C16", cfg="MC_C16_sched.cfg", consts=big)
-    subsample(cx, b, 20000 if thorough else 1500)
+    subsample(cx, b, 30000 if thorough else 3000)
     sample_behaviours(cx, b)
     trace, crash = play(cx, b, "sched", cmd="sched")
     rejected = [] if crash else validate(cx, trace, "Trace_PgServer")
@@ -326,8 +326,11 @@ def c02(cx):
     files = [b]
     # (b) every byte any driver makes the server emit goes through the grammar
     n = 3000 if thorough else 250
-    for fam in ["C02", "C05", "C06", "C08", "C09", "C13", "C17", "C12", "C01", "C19", "C10", "C07"]:
-        g = gen_random(cx, fam, n, tag="rand-" + fam)
+    for fam in ["C02", "C05", "C06", "C08", "C09", "C13", "C17", "C12", "C01", "C19", "C10", "C07", "C08odd", "C13odd"]:
+        # "...odd": the same families with inputs outside the protocol's domain (format-code lists that are neither
+        # empty, single nor complete): what the server answers is not prescribed, that it is well-formed is
+        odd = fam.endswith("odd")
+        g = gen_random(cx, fam[:3], n, tag="rand-" + fam, extra=(["-odd"] if odd else None))
         files.append(g)
         if fam == "C17":
             sample_behaviours(cx, g)
